@@ -48,7 +48,9 @@ Definition checks (c : case) : list (N * bool) :=
   | Ok (None, _, _) => [ (6%N, false) ]
   | Err e =>
     (* the model stops where a pass failed to compile; the implementation must have failed too *)
-    [ (7%N, negb (k_kind c =? 0) && negb (bool_decide (e = "fee threading"%string))) ]
+    (7%N, negb (k_kind c =? 0) && negb (bool_decide (e = "fee threading"%string))) ::
+    (* whatever the model makes of the trace, a returned transaction must satisfy the property *)
+    (if k_kind c =? 0 then [ (101%N, (k_body_fee c =? Z.of_N (k_fee c))%Z); (102%N, (k_fee c =? k_a c * k_len c + k_b c + k_m c)) ] else [])
   | _ => [ (8%N, false) ]
   end.
 
